@@ -212,7 +212,7 @@ def handle (op : String) (args : List String) : Option String :=
           for a in [0:n] do
             h := (valWords (f ⟨t, a⟩ mask)).foldl digestStep h
           return h
-        pure ("digest " ++ toString h)
+        pure ("ok digest=" ++ toString h)
       | none => do
         let f ← binaryOp? o
         let h := Id.run do
@@ -221,7 +221,7 @@ def handle (op : String) (args : List String) : Option String :=
             for b in [0:n] do
               h := (valWords (f ⟨t, a⟩ ⟨t, b⟩ mask)).foldl digestStep h
           return h
-        pure ("digest " ++ toString h)
+        pure ("ok digest=" ++ toString h)
   | "eval", e :: asz :: fmt :: ver :: st :: init :: obj :: mx :: h :: sc :: rest => do
       let e ← endian? e; let enc ← enc? asz fmt ver; let caps ← caps? st
       let init ← optNat? init; let obj ← optNat? obj; let mx ← optNat? mx
@@ -239,7 +239,7 @@ def handle (op : String) (args : List String) : Option String :=
       let enc : Encoding := { addressSize := asz, format := .dwarf32, version := 4 }
       let f := fun (prog : Bytes) (h : UInt64) =>
         digestStep h (strHash (doEval e enc caps .debug none (some 0x1234) mx prog []))
-      pure ("digest " ++ toString (enumProgs alpha (len - 1) sym f digestInit))
+      pure ("ok digest=" ++ toString (enumProgs alpha (len - 1) sym f digestInit))
   | _, _ => none
 
 end Gimli.Drv.C07
